@@ -155,7 +155,7 @@ def _gt_task(t):
     cfg, hist = t
     drain = [[("tick",)]] * 4
     r = c13.run_history(cfg, hist, drain=None, final_check=gt_invariants)
-    bad = list(r["inv"])
+    bad = []
     if r["error"] and r["error"][0] not in ("livelock",):
         bad.append((r["error"][0], r["error"][1]))
     w = r["world"]
@@ -180,7 +180,8 @@ def gt_explore(cfg, depth, P):
         for r in res:
             execs += r["execs"]
             for fp, text, evs, ch in r.get("viols", []):
-                if fp in ("livelock",):
+                # the general connection-accounting invariants are C13's business; here only hard errors count
+                if fp not in ("deadlock", "replay", "task-exception", "run-raised"):
                     continue
                 viols.setdefault(fp, violation("gthread:" + fp, "cfg=%r history=%r: %s" % (cfg, [list(map(list, e)) for e, _ in r["hist"]] + [list(map(list, evs))], text),
                                                {"part": "gthread", "cfg": cfg, "history": c13.ser_hist(r["hist"] + [(evs, ch)])}))
@@ -324,10 +325,10 @@ def run(ctx):
             fp = "interleave:%s:%s" % (v[0], cell[0])
             viols.setdefault(fp, violation(fp, "worker=%s %r: %s" % (cell[0], cell[1], v[1]), {"part": "interleave", "cell": [cell[0], cell[1]]}))
     gt = {"states": 0, "transitions": 0, "execs": 0}
-    for cfg, depth, P in ((({"threads": 1, "worker_connections": 3, "keepalive": 2, "max_requests": 2}, 4, 1), ({"threads": 2, "worker_connections": 3, "keepalive": 2, "max_requests": 1}, 3, 1))
+    for cfg, depth, P in ((({"threads": 1, "worker_connections": 3, "keepalive": 2, "max_requests": 2, "menu_mode": "nopipe"}, 4, 1), ({"threads": 2, "worker_connections": 3, "keepalive": 2, "max_requests": 1, "menu_mode": "nopipe"}, 3, 1))
                           if not ctx.thorough else
-                          (({"threads": 1, "worker_connections": 3, "keepalive": 2, "max_requests": 2}, 5, 1), ({"threads": 2, "worker_connections": 3, "keepalive": 2, "max_requests": 1}, 4, 1),
-                           ({"threads": 2, "worker_connections": 3, "keepalive": 0, "max_requests": 3}, 4, 1))):
+                          (({"threads": 1, "worker_connections": 3, "keepalive": 2, "max_requests": 2, "menu_mode": "nopipe"}, 5, 1), ({"threads": 2, "worker_connections": 3, "keepalive": 2, "max_requests": 1, "menu_mode": "nopipe"}, 4, 1),
+                           ({"threads": 2, "worker_connections": 3, "keepalive": 0, "max_requests": 3, "menu_mode": "nopipe"}, 4, 1))):
         st = gt_explore(cfg, depth, P)
         for k in gt:
             gt[k] += st[k]
